@@ -254,6 +254,13 @@ func (e *Eng) callBuiltin(caller *frame, pos token.Pos, fn *ssa.Builtin, args []
 		}
 		return recv
 
+	case "Sizeof":
+		T := fn.Type().(*types.Signature).Params().At(0).Type()
+		return tb.Const(64, uint64(types.SizesFor("gc", "amd64").Sizeof(T)))
+	case "Alignof":
+		T := fn.Type().(*types.Signature).Params().At(0).Type()
+		return tb.Const(64, uint64(types.SizesFor("gc", "amd64").Alignof(T)))
+
 	case "close", "real", "imag", "complex":
 		e.unsupported("builtin %s", fn.Name())
 	}
